@@ -70,11 +70,10 @@ def instances(tier):
         return q
     return [
         ("q", dict(MaxOps=2, MaxEnts=2), False),
-        ("a", dict(MaxOps=2, MaxEnts=2, WithAppend="TRUE", EntSizes="EntSizes2"), False),
+        ("a", dict(MaxOps=2, MaxEnts=2, WithAppend="TRUE", EntSizes="EntSizes2", WithRewrite="FALSE", WithSnap="FALSE"), False),
         ("n", dict(MaxOps=2, MaxEnts=2, MetaWords=2, SegWords=128, EntSizes="EntSizesN"), False),
-        ("d", dict(MaxOps=3, MaxEnts=2, EntSizes="EntSizes2", WithRewrite="FALSE"), False),
-        ("c", dict(MaxOps=2, MaxEnts=2, SegWords=128, EntSizes="EntSizes2N", WithSnap="FALSE", WithRewrite="FALSE", WithAppend="TRUE",
-                   WithCutCrash="TRUE", INV=CUT_INV), False),
+        ("d", dict(MaxOps=3, MaxEnts=1, EntSizes="EntSizesD"), False),
+        ("c", dict(MaxOps=2, MaxEnts=1, SegWords=128, EntSizes="EntSizes2N", WithAppend="TRUE", WithCutCrash="TRUE", INV=CUT_INV), False),
         ("fc", dict(MaxOps=2, MaxEnts=1, SegWords=128, EntSizes="EntSizes2N", WithAppend="TRUE", WithCutCrash="TRUE",
                     StaleTmpAsBuilt="FALSE", EmitOn="FALSE"), False),
         ("k", dict(MaxOps=2, MaxEnts=2, EntSizes="EntSizes2", WithCorrupt="TRUE", INV=COR_INV), False),
